@@ -303,37 +303,51 @@ SerdeViol(r) ==
            \* demanded only for the NATURAL primitive of the type (what Serialize emits): u8, or u16 for U14
            \cup (IF r[3] = (IF r[2] = 2 THEN 2 ELSE 0) /\ TryOk(r[2], r[4], r[5]) /\ r[6] # 1
                  THEN {<<"C19", "int-valid-rejected">>} ELSE {})
-      [] r[1] \in {2, 12} ->   \* RawShortMessage from [s,d1,d2] (12: other data formats / byte strings - soundness and
-                               \* value fidelity only)
+      \* Composite types.  The inputs are natural representations with fields patched to the listed values.
+      \* Accepted rows end with `alias`: 1 = the input IS the natural representation of the value that came out
+      \* (in a representation that packs several fields into one number, a patched "out-of-range field" can be
+      \* the representation of another valid value; accepting that is right).  Demanded: whatever comes out could
+      \* have been built through the checked constructors; an input with an out-of-range / inconsistent field
+      \* that is nobody's natural representation is rejected; valid inputs come out unchanged.
+      [] r[1] \in {2, 12} ->   \* RawShortMessage from [s,d1,d2] (12: other data formats / byte strings - no completeness)
            IF r[2] = -9 THEN (IF r[5] = -2 THEN {<<"C19", "deserialize-panics">>} ELSE {})
-           ELSE LET valid == ValidStatus(r[2]) /\ r[3] \in 0..127 /\ r[4] \in 0..127 IN
+           ELSE LET valid == ValidStatus(r[2]) /\ r[3] \in 0..127 /\ r[4] \in 0..127
+                    alias == r[5] = 1 /\ r[11] = 1 IN
                 (IF r[5] = -2 THEN {<<"C19", "deserialize-panics">>} ELSE {})
-                \cup (IF r[5] = 1 /\ ~valid THEN {<<"C19", "raw-invalid-accepted">>} ELSE {})
+                \cup (IF r[5] = 1 /\ ~(ValidStatus(r[6]) /\ r[7] \in 0..127 /\ r[8] \in 0..127)
+                      THEN {<<"C19", "raw-invalid-accepted">>} ELSE {})
+                \cup (IF r[5] = 1 /\ ~valid /\ ~alias THEN {<<"C19", "raw-invalid-accepted">>} ELSE {})
                 \cup (IF r[1] = 2 /\ valid /\ r[5] # 1 THEN {<<"C19", "raw-valid-rejected">>} ELSE {})
                 \cup (IF valid /\ r[5] = 1 /\ ~(<<r[6], r[7], r[8]>> = <<r[2], r[3], r[4]>> /\ r[9] = TypeOf(r[2]))
                       THEN {<<"C19", "raw-value-changed">>} ELSE {})
                 \cup (IF r[5] = 1 /\ (r[9] = -2 \/ r[10] = -2) THEN {<<"C19", "raw-accessor-panics-after-deserialize">>} ELSE {})
-      [] r[1] \in {3, 9} ->   \* ControlChange14BitMessage (3: from a map, 9: from a sequence)
-           LET valid == r[2] \in 0..15 /\ r[3] \in 0..31 /\ r[4] \in 0..16383 IN
+      [] r[1] \in {3, 9} ->   \* ControlChange14BitMessage (3: JSON map - with completeness; 9: every other way)
+           LET valid == r[2] \in 0..15 /\ r[3] \in 0..31 /\ r[4] \in 0..16383
+               alias == r[5] = 1 /\ r[11] = 1 IN
            (IF r[5] = -2 THEN {<<"C19", "deserialize-panics">>} ELSE {})
-           \cup (IF r[5] = 1 /\ ~valid THEN {<<"C19", "cc14-invalid-accepted">>} ELSE {})
-           \* (for the positional form only soundness and value fidelity are demanded)
+           \cup (IF r[5] = 1 /\ ~(r[6] \in 0..15 /\ r[7] \in 0..31 /\ r[8] \in 0..16383)
+                 THEN {<<"C19", "cc14-invalid-accepted">>} ELSE {})
+           \cup (IF r[5] = 1 /\ ~valid /\ ~alias THEN {<<"C19", "cc14-invalid-accepted">>} ELSE {})
            \cup (IF r[1] = 3 /\ valid /\ r[5] # 1 THEN {<<"C19", "cc14-valid-rejected">>} ELSE {})
            \cup (IF r[5] = 1 /\ (r[9] = -2 \/ r[10] = -2) THEN {<<"C19", "cc14-accessor-panics-after-deserialize">>} ELSE {})
            \cup (IF valid /\ r[5] = 1 /\ ~(<<r[6], r[7], r[8]>> = <<r[2], r[3], r[4]>> /\ r[9] = r[3] + 32 /\ r[10] = r[3] + 32)
                  THEN {<<"C19", "cc14-value-changed">>} ELSE {})
-      [] r[1] \in {4, 8} ->   \* ParameterNumberMessage (4: from a map, 8: from a sequence)
+      [] r[1] \in {4, 8} ->   \* ParameterNumberMessage (4: JSON map - with completeness; 8: every other way)
            LET msg == <<r[2], r[3], r[4], r[5], r[6], r[7]>>
-               valid == r[7] <= 2 /\ PnValid(msg) IN
+               valid == r[7] <= 2 /\ PnValid(msg)
+               alias == r[8] = 1 /\ r[16] = 1 IN
            (IF r[8] = -2 THEN {<<"C19", "deserialize-panics">>} ELSE {})
-           \cup (IF r[8] = 1 /\ ~valid THEN {<<"C19", "pn-inconsistent-accepted">>} ELSE {})
+           \cup (IF r[8] = 1 /\ ~(r[14] <= 2 /\ PnValid(Sub(r, 9, 6))) THEN {<<"C19", "pn-inconsistent-accepted">>} ELSE {})
+           \cup (IF r[8] = 1 /\ ~valid /\ ~alias THEN {<<"C19", "pn-inconsistent-accepted">>} ELSE {})
            \cup (IF r[1] = 4 /\ valid /\ r[8] # 1 THEN {<<"C19", "pn-valid-rejected">>} ELSE {})
            \cup (IF r[8] = 1 /\ ~(r[15] \in 0..127) THEN {<<"C19", "pn-encoder-fails-after-deserialize">>} ELSE {})
            \cup (IF valid /\ r[8] = 1 /\ Sub(r, 9, 6) # msg THEN {<<"C19", "pn-value-changed">>} ELSE {})
-      [] r[1] \in {5, 15} ->   \* StructuredShortMessage (15: other data formats - soundness and value fidelity only)
-           LET x == <<r[2], r[3], r[4], r[5]>>  valid == StructuredValid(x) IN
+      [] r[1] \in {5, 15} ->   \* StructuredShortMessage (5: JSON - with completeness; 15: every other way)
+           LET x == <<r[2], r[3], r[4], r[5]>>  valid == StructuredValid(x)
+               alias == r[6] = 1 /\ r[11] = 1 IN
            (IF r[6] = -2 THEN {<<"C19", "deserialize-panics">>} ELSE {})
-           \cup (IF r[6] = 1 /\ ~valid THEN {<<"C19", "structured-invalid-accepted">>} ELSE {})
+           \cup (IF r[6] = 1 /\ ~StructuredValid(Sub(r, 7, 4)) THEN {<<"C19", "structured-invalid-accepted">>} ELSE {})
+           \cup (IF r[6] = 1 /\ ~valid /\ ~alias THEN {<<"C19", "structured-invalid-accepted">>} ELSE {})
            \cup (IF r[1] = 5 /\ valid /\ r[6] # 1 THEN {<<"C19", "structured-valid-rejected">>} ELSE {})
            \cup (IF valid /\ r[6] = 1 /\ Sub(r, 7, 4) # x THEN {<<"C19", "structured-value-changed">>} ELSE {})
       [] r[1] = 6 ->        \* ShortMessageType
